@@ -34,38 +34,21 @@ def mk(name, mode, org, direction, n, target_kind="label", pre=3):
 
 def classify(c, code, out):
     """finding class of a failing case (None = not a known class).  rel = the distance gosk itself computes
-    (target value as pass 1 assigned it minus the address of the branch)."""
+    (target value as pass 1 assigned it minus the address of the branch).  Since the fixes c1e6918 / 68e2454 every emitted
+    branch form is right for the distance codegen sees; what is left is pass 1's fixed 16-bit size estimate: a FORWARD
+    label is assigned assuming the branch takes 2 (CALL: 3) bytes, so when codegen needs a longer form the label drifts
+    and the branch lands short of it."""
     name, mode, direction, n = c["name"], c["mode"], c["dir"], c["n"]
     kind = "JMP" if name == "JMP" else "CALL" if name == "CALL" else "JCC"
-    if mode == 16:
-        est = 3 if kind == "CALL" else 2
-    else:
-        est = 6 if kind == "JCC" else 5
-    if direction == "fwd":
-        rel = est + n
-    elif direction == "bwd":
-        rel = -n
-    else:
-        rel = n - (c["origin"] + c["off"])
-        est = 3 if mode == 16 else est
-    d8 = rel - 2                       # the rel8 displacement; the form is chosen from it (fix e07e6de)
-    in16 = -32768 <= d8 <= 32767
     if mode == 32:
-        # only the rel8 forms towards an already-known address are right in 32-bit mode: pass 1 assumes
-        # rel32 sizes (5/6 bytes) while codegen emits rel8 / prefix-less rel16 forms
-        if direction in ("bwd", "num") and kind != "CALL" and -128 <= d8 <= 127:
-            return None
-        return "C04-bits32-near-forms"
-    if kind in ("JMP", "JCC") and direction == "fwd" and d8 > 127:
-        return "C04-bits16-forward-beyond-short"          # pass 1 counted 2 bytes, codegen emits 3/4: target label drifts
-    if kind == "CALL" and not (-32768 <= rel - 5 <= 32767):
-        return "C04-call-rel32-16bit-no-66"
-    if kind == "JMP" and not in16:
-        return "C04-jmp-rel32-16bit-off-by-one"
-    if kind == "JCC" and not in16:
-        return "C04-jcc-rel32-16bit-no-66"
-    if direction == "num" and kind in ("JMP", "JCC") and d8 > 127:
-        return "C04-bits16-numeric-target-size"           # pass 1 always counts 3 bytes for a numeric target; Jcc near is 4
+        return None                                        # rel32 forms of exactly the sizes pass 1 reserves
+    if direction == "fwd":
+        est = 3 if kind == "CALL" else 2
+        rel = est + n
+        if kind in ("JMP", "JCC") and rel - 2 > 127:
+            return "C04-bits16-forward-beyond-short"      # pass 1 counted 2 bytes, codegen emits 3/4 (or 6/7): target label drifts
+        if kind == "CALL" and rel - 3 > 32767:
+            return "C04-bits16-forward-beyond-short"      # pass 1 counted 3 bytes, codegen emits 66 E8 cd
     return None
 
 
